@@ -62,7 +62,41 @@ def jobs_c17(tier):
     return js
 
 
+def jobs_tf(tier):
+    js = [J("std", "fast"), J("std", "checked"), J("nounroll", "fast"), J("nounroll", "checked")]
+    if tier != "quick":
+        js += [J("std", "dev", scale=0.02), J("nounroll", "dev", scale=0.02)]
+    return js
+
+
+def jobs_c19(tier):
+    js = [J("std", "fast"), J("std", "checked")]
+    if tier != "quick":
+        js.append(J("std", "dev", scale=0.05))
+    return js
+
+
 PLANS = {
+    "C09": {
+        "jobs": jobs_tf,
+        "rule": "generated (size in 256/512/1024, key uniform/structured or with the key-schedule parity word forced to 0 / all-ones, two "
+                "tweak words from uniform/0/all-ones/single-bit, block, construction via with_tweak or new); oracle: encrypt_block == "
+                "reference Threefish (forward permutation, subkeys on the fly); the same generated cases run in the default and the "
+                "no_unroll build, overflow-checked and optimised; every case is non-trivial; distinct = FNV-1a of (configuration, case)",
+    },
+    "C10": {
+        "jobs": jobs_tf,
+        "rule": "same generator as C09; oracle: decrypt(encrypt(x)) == x, encrypt(decrypt(x)) == x and decrypt_block == reference inverse "
+                "(so a pair of compensating errors is visible); default and no_unroll builds; every case is non-trivial; distinct = FNV-1a of "
+                "(configuration, case)",
+    },
+    "C19": {
+        "jobs": jobs_c19,
+        "rule": "one generated operand set (two 512-bit values uniform/structured incl. all-ones and single-bit, rotate amounts reduced into "
+                "1..bits-1, word rotation 0..3, lane index, replacement word) evaluates every public constructor/method cell of u32x4, "
+                "u64x4, u128x1, u128x2, u32x4x4 (78 cells) against the byte-level scalar model; optimised and overflow-checked profiles; "
+                "non-trivial = first operand not all-zero; distinct = FNV-1a of (configuration, case)",
+    },
     "C04": {
         "jobs": jobs_conf,
         "rule": "BLAKE-224/256/384/512 x message: exhaustive sweep of every length 0..=3*block+2 (all six content patterns at the "
